@@ -130,6 +130,14 @@ def check_flags(prog, ctx, an):
         # ordinary value-returning function; a flag forwarded through **kwargs
         # (interface wrappers) keeps the callee's condition
         bad = [e for e in effs if not _has_flag(e.cond)]
+        if bad and f.cls is None and f.name.startswith("_") and not f.name.startswith("__"):
+            # a private module-level helper may update a scratch container of its caller (in-place sort
+            # returning a phase, ...); its effect is carried to every caller by the summaries, so an
+            # operand write still surfaces at the public function that passes an operand in
+            users = [g for g in an.summaries if g is not f and any(c is f for (_, c) in an.call_sites.get(g, ()))]
+            ctx.ok("R14.2", f"{f.file}:{f.qualname}",
+                   f"private helper writes to its argument(s) {sorted({e.root[2:] for e in bad})}: judged at its {len(users)} caller(s)")
+            continue
         for e in bad:
             ctx.bad("R14.2", f, e.node, src(e.node), f"value-returning function performs {e.describe()}")
         if not bad:
@@ -398,7 +406,10 @@ def check_branch_pairs(prog, ctx):
         if f.parent is not None or FLAG not in f.all_params():
             continue
         for node in ast.walk(f.node):
-            if not (isinstance(node, ast.If) and src(node.test) == FLAG):
+            if not isinstance(node, ast.If):
+                continue
+            negated = src(node.test) == f"not {FLAG}"
+            if not (src(node.test) == FLAG or negated):
                 continue
             def calls(stmts, attr):
                 out = {}
@@ -407,8 +418,18 @@ def check_branch_pairs(prog, ctx):
                         if isinstance(c, ast.Call) and isinstance(c.func, ast.Attribute) and c.func.attr == attr:
                             out[src(c.func.value)] = c
                 return out
-            mods = calls(node.body, "modify")
-            cws = calls(node.orelse, "copy_with")
+            orelse = node.orelse
+            if not orelse and node.body and isinstance(node.body[-1], ast.Return):
+                # `if inplace: return x.modify(..)` followed by the out-of-place statements
+                parent_body = _body_containing(f.node, node)
+                if parent_body is not None:
+                    orelse = parent_body[parent_body.index(node) + 1:]
+            if negated:
+                mods = calls(orelse, "modify")
+                cws = calls(node.body, "copy_with")
+            else:
+                mods = calls(node.body, "modify")
+                cws = calls(orelse, "copy_with")
             if not mods and not cws:
                 continue
             for recv in sorted(set(mods) | set(cws)):
@@ -424,6 +445,15 @@ def check_branch_pairs(prog, ctx):
                           f"`{recv}.modify(...)` (in place) and `{recv}.copy_with(...)` (out of place) install the same "
                           f"{sorted(km)} values")
     ctx.minimum(rid, 5, "sync_charges, _fuse_core, unfuse, drop_misaligned_sectors (a, b)")
+
+
+def _body_containing(fnode, stmt):
+    for n in ast.walk(fnode):
+        for name in ("body", "orelse", "finalbody"):
+            b = getattr(n, name, None)
+            if isinstance(b, list) and any(x is stmt for x in b):
+                return b
+    return None
 
 
 def check_dynamic(prog, ctx):
